@@ -55,6 +55,7 @@ def make_run(case):
             shapes = shapes[:2]
             if sum(G.n_blocks(s, 1024, cfg["use_merge_dims"]) for s in shapes) <= 14:
                 break
+    G.stabilise_iterative(cfg, shapes, gs)
     n = len(shapes)
     groups = None
     if n >= 2 and rnd.random() < 0.4:
@@ -68,11 +69,11 @@ def make_run(case):
                 if key == "lr":
                     ov[key] = rnd.choice([0.02, 0.3])
                 elif key == "betas":
-                    ov[key] = [rnd.choice([0.0, 0.85]), rnd.choice([1.0, 0.97])]
+                    ov[key] = [rnd.choice([0.0, 0.85]), 0.97 if cfg["precond"]["solver"]["type"] in ("newton", "ho") else rnd.choice([1.0, 0.97])]
                 elif key == "beta3":
                     ov[key] = rnd.choice([0.55, 0.0])
                 elif key == "epsilon":
-                    ov[key] = cfg["epsilon"] * 3
+                    ov[key] = None  # filled in below, once the final epsilon is known
                 elif key == "momentum":
                     ov[key] = rnd.choice([0.45, 0.0]) if cfg["momentum"] == 0 else rnd.choice([0.45, 0.55])
                 elif key == "weight_decay":
@@ -85,6 +86,8 @@ def make_run(case):
                     ov[key] = rnd.choice([0.0, 0.15])
                 else:
                     ov[key] = rnd.random() < 0.5
+            if "epsilon" in ov:
+                ov["epsilon"] = cfg["epsilon"] * 3
             # keep start >= frequency inside the group (the documented domain)
             f = ov.get("precondition_frequency", cfg["precondition_frequency"])
             st = ov.get("start_preconditioning_step", cfg["start_preconditioning_step"] if cfg["start_preconditioning_step"] != -1 else cfg["precondition_frequency"])
